@@ -119,6 +119,13 @@ type mGrammar struct {
 	Toks []string `@(A | B)*`
 }
 
+type oGrammar struct {
+	W []string `@(Ident | Int | String)*`
+}
+type wGrammar struct {
+	W []string `@(Word | Str)*`
+}
+
 type uGrammar struct {
 	W []string `@(Word | Other)*`
 }
@@ -258,6 +265,70 @@ func mapperRun(args []string) error {
 					fmt.Fprintf(w, "MISMATCH\t%s\t%s\ttokens %q, expected %q\n", in, name, got, want)
 				}
 			}
+		}
+	}
+	// mappers name token types of the parser's FINAL lexer, wherever the Lexer option stands in the list (the names below exist in
+	// the default lexer too, with other numbers)
+	{
+		lx := lexer.MustSimple([]lexer.SimpleRule{{Name: "Int", Pattern: `\d+`}, {Name: "String", Pattern: `"[^"]*"`}, {Name: "Ident", Pattern: `[a-z]+`}, {Name: "ws", Pattern: `\s+`}})
+		var seen []string
+		watch := func(t lexer.Token) (lexer.Token, error) { seen = append(seen, t.Value); return t, nil }
+		orders := map[string][]participle.Option{
+			"Lexer first": {participle.Lexer(lx), participle.Unquote("String"), participle.Upper("Ident"), participle.Map(watch, "Int")},
+			"Lexer last":  {participle.Unquote("String"), participle.Upper("Ident"), participle.Map(watch, "Int"), participle.Lexer(lx)},
+			"Lexer amid":  {participle.Unquote("String"), participle.Lexer(lx), participle.Map(watch, "Int"), participle.Upper("Ident")},
+		}
+		for name, opts := range orders {
+			n++
+			seen = nil
+			p, err := participle.Build[oGrammar](opts...)
+			if err != nil {
+				bad++
+				fmt.Fprintf(w, "MISMATCH\toption order\t%s\tBuild: %v\n", name, err)
+				continue
+			}
+			toks, err := p.Lex("", strings.NewReader(`ab "cd" 12 x`))
+			var vals []string
+			for _, t := range toks {
+				if !t.EOF() {
+					vals = append(vals, t.Value)
+				}
+			}
+			if got, want := strings.Join(vals, "|")+" seen "+strings.Join(seen, ","), "AB|cd|12|X seen 12"; err != nil || got != want {
+				bad++
+				fmt.Fprintf(w, "MISMATCH\toption order\t%s\ttokens %q (%v), expected %q\n", name, got, err, want)
+			}
+		}
+	}
+	// lexers with many token types: the mapped type lies beyond the 64th
+	for _, nrules := range []int{60, 61, 62, 63, 64, 70, 130} {
+		var rules []lexer.SimpleRule
+		for i := 0; i < nrules; i++ {
+			rules = append(rules, lexer.SimpleRule{Name: fmt.Sprintf("K%d", i), Pattern: fmt.Sprintf("@k%d@", i)})
+		}
+		rules = append(rules, lexer.SimpleRule{Name: "Word", Pattern: `[a-z]+`}, lexer.SimpleRule{Name: "Str", Pattern: `"[^"]*"`}, lexer.SimpleRule{Name: "ws", Pattern: `\s+`})
+		var seen []string
+		last := fmt.Sprintf("K%d", nrules-1)
+		p, err := participle.Build[wGrammar](participle.Lexer(lexer.MustSimple(rules)), participle.Upper("Word"), participle.Unquote("Str"),
+			participle.Map(func(t lexer.Token) (lexer.Token, error) { seen = append(seen, t.Value); return t, nil }, last))
+		n++
+		if err != nil {
+			bad++
+			fmt.Fprintf(w, "MISMATCH\tmany types\t%d\tBuild: %v\n", nrules, err)
+			continue
+		}
+		in := fmt.Sprintf(`ab @k%d@ "q" @k0@`, nrules-1)
+		toks, err := p.Lex("", strings.NewReader(in))
+		var vals []string
+		for _, t := range toks {
+			if !t.EOF() {
+				vals = append(vals, t.Value)
+			}
+		}
+		want := fmt.Sprintf("AB|@k%d@|q|@k0@ seen @k%d@", nrules-1, nrules-1)
+		if got := strings.Join(vals, "|") + " seen " + strings.Join(seen, ","); err != nil || got != want {
+			bad++
+			fmt.Fprintf(w, "MISMATCH\tmany types\t%d rules before Word\ttokens %q (%v), expected %q\n", nrules, got, err, want)
 		}
 	}
 	// a catch-all mapper that changes a token's TYPE: the typed mappers are chosen by the type the lexer gave the token
